@@ -1263,6 +1263,26 @@ fn gen_case(r: &mut Rng) -> Case {
         c.soa = None;
         c.rcode = 0;
     }
+    if r.chance(1, 150) {
+        // a query name so long that `*.<closest encloser>` no longer fits into 255 octets
+        // (`prepend_label("*")` fails in closest_encloser_proof_with_wildcard)
+        let mut n = z.apex.clone();
+        let big = vec![b'x'; 63];
+        while let Ok(m) = n.prepend_label(&big[..]) {
+            n = m;
+        }
+        let rest = 255usize.saturating_sub(n.iter().map(|l| l.len() + 1).sum::<usize>() + 1);
+        if rest >= 2 {
+            if let Ok(m) = n.prepend_label(&vec![b'y'; rest - 1][..]) {
+                n = m;
+            }
+        }
+        c.q = n;
+        if r.chance(1, 2) {
+            // make the apex record match so that the closest encloser search succeeds somewhere
+            c.recs = ch.clone();
+        }
+    }
     if r.chance(1, 4) {
         mutate(r, &mut c);
         if r.chance(1, 4) {
